@@ -36,7 +36,7 @@ import tempfile
 from spyne import BODY_STYLE_WRAPPED, MethodDescriptor, PushBase
 from spyne.util import six, coroutine, Break
 from spyne.util.six import string_types, BytesIO
-from spyne.error import ResourceNotFoundError
+from spyne.error import ResourceNotFoundError, ValidationError
 from spyne.model.binary import BINARY_ENCODING_URLSAFE_BASE64, File
 from spyne.model.primitive import DateTime
 from spyne.protocol.dictdoc import SimpleDictDocument
@@ -377,7 +377,13 @@ class HttpRpc(SimpleDictDocument):
         ctx.out_string = ctx.out_document
 
     def boolean_from_bytes(self, cls, string):
-        return string.lower() in ('true', '1', 'checked', 'on')
+        value = string.lower()
+        if value in ('true', '1', 'checked', 'on'):
+            return True
+        if value in ('false', '0', 'unchecked', 'off'):
+            return False
+
+        raise ValidationError(string, "%r is not a boolean")
 
     def integer_from_bytes(self, cls, string):
         if string == '':
